@@ -32,6 +32,17 @@ A case is a slot setting and a list of ops, each preceded by a virtual delay:
                              iteration); whatever a task has decided but not yet recorded stays unrecorded that long.
                              Monitor-only (the model has no file system).
 
+  optional case key 'settings': 'section'|'dict'|'transfers'|'copy'|'mixed'   HOW the application changes its configuration
+                             (`setSlots`, the friend list of `setUser`): not by assigning to an attribute of the section
+                             object the client was built with (default) but by installing a NEW object — `settings.transfers.
+                             limits = TransferLimitSettings(..)` / `= {..}` (pydantic validates the dict into a new object) /
+                             `= limits.model_copy(update=..)`, `settings.transfers = TransfersSettings(..)`; the friend list as
+                             a new set / a new `users` section (`mixed`: a different way per op, in-place included).  All are
+                             legal with the pydantic settings (validate_assignment), e.g. when a re-loaded configuration is
+                             applied.  Same model ops (`setSlots n`, `friend u b`): exact correspondence.  The limit / friend
+                             list every decision is judged against is the one IN THE SETTINGS at that instant, not what the
+                             manager says it is.
+
   optional case key 'notice': True   the peer is hard to reach for anything but the transfer itself: the report of a broken
                              upload (`PeerUploadFailed`, sent by the upload's task after it made the upload FAILED) needs a
                              connection that is slow; the task lingers until ['notice', k, 'ok'|'fail', dt] ends the
@@ -79,7 +90,56 @@ def _user(u: int) -> str:
     return f'user{u}'
 
 
-async def _perform(rig, body: list) -> str:
+SETTINGS_WAYS = ('section', 'dict', 'transfers', 'copy')
+SETTINGS_MIXED = ('section', 'attr', 'dict', 'transfers', 'attr', 'copy')
+
+
+def _way(case: dict, i: int) -> str:
+    """how op #i of the case changes the configuration (case key 'settings')"""
+    w = case.get('settings')
+    if not w:
+        return 'attr'
+    if w == 'mixed':
+        return SETTINGS_MIXED[i % len(SETTINGS_MIXED)]
+    if w not in SETTINGS_WAYS:
+        raise ValueError(f'bad settings key {w!r}')
+    return w
+
+
+def _set_slots(settings, n: int, way: str):
+    from aioslsk.settings import TransferLimitSettings, TransfersSettings
+    if way == 'attr':
+        settings.transfers.limits.upload_slots = n
+    elif way == 'section':
+        settings.transfers.limits = TransferLimitSettings(upload_slots=n)
+    elif way == 'dict':
+        settings.transfers.limits = {'upload_slots': n}
+    elif way == 'copy':
+        settings.transfers.limits = settings.transfers.limits.model_copy(update={'upload_slots': n})
+    elif way == 'transfers':
+        settings.transfers = TransfersSettings(limits=TransferLimitSettings(upload_slots=n),
+                                               report_interval=settings.transfers.report_interval)
+    else:
+        raise ValueError(way)
+    assert settings.transfers.limits.upload_slots == n
+
+
+def _set_friend(settings, name: str, friend: bool, way: str):
+    if way == 'attr':
+        (settings.users.friends.add if friend else settings.users.friends.discard)(name)
+        return
+    new = set(settings.users.friends)
+    (new.add if friend else new.discard)(name)
+    if way in ('section', 'copy'):
+        settings.users.friends = new                   # a new set object in the same section
+    elif way == 'dict':
+        settings.users = {'friends': sorted(new), 'blocked': dict(settings.users.blocked)}
+    else:
+        settings.users = settings.users.model_copy(update={'friends': new})
+    assert (name in settings.users.friends) == friend
+
+
+async def _perform(rig, body: list, way: str = 'attr') -> str:
     """Executes one op on the real manager. Returns 'ok' | 'refused'."""
     from aioslsk.exceptions import InvalidStateTransition
     from aioslsk.protocol.messages import PeerTransferQueue
@@ -105,15 +165,12 @@ async def _perform(rig, body: list) -> str:
         rig.log.append(('add', len(rig.transfers) - 1, _user(u), 'D'))
         return 'ok'
     if kind == 'setSlots':
-        rig.settings.transfers.limits.upload_slots = body[1]
+        _set_slots(rig.settings, body[1], way)
         rig.log.append(('slots', body[1]))
         return 'ok'
     if kind == 'setUser':
         _, u, status, friend, priv = body
-        if friend:
-            rig.settings.users.friends.add(_user(u))
-        else:
-            rig.settings.users.friends.discard(_user(u))
+        _set_friend(rig.settings, _user(u), bool(friend), way)
         rig.log.append(('friend', _user(u), bool(friend)))
         await rig.server.set_user(_user(u), status, bool(priv))
         return 'ok'
@@ -274,6 +331,10 @@ def _rig_class():
             # transfers in the middle of a state change (abort / pause waiting for the task it cancelled): the scheduler
             # leaves them alone, the transition requests a cycle when it completes (manager.py:650-656)
             info['locked'] = [self.k_of(t) for t in self.mgr.transfers if t._state_lock.locked()]
+            # the limit in force is the one in the settings (what the application configured), whatever the manager
+            # believes it to be; what the manager reports is kept beside it
+            info['reported_slots'] = info['slots']
+            info['slots'] = self.settings.transfers.limits.upload_slots
             return info
 
     return Rig05
@@ -322,7 +383,7 @@ def _run_impl(case: dict) -> dict:
                 res = await _perform(rig, body)
                 rig.log.append(('opline', line, res))
             else:
-                res = await _perform(rig, body)
+                res = await _perform(rig, body, _way(case, i))
                 rig.log.append(('op', i, res))
             if i + 1 < len(ops) and ops[i + 1][-1] == SAME_STEP and ops[i + 1][0] not in TASK_OPS:
                 continue                         # the next op follows in the same loop step: nothing else runs in between
@@ -549,6 +610,16 @@ def _reference(log: list):
             yield idx, {u: ([ref[u][0], bool(seen[u][1]), ref[u][1]] if u in ref else list(seen[u])) for u in seen}
 
 
+def _candidate_of(info: dict) -> dict:
+    """user -> the user's candidate at a cycle: the first QUEUED upload in list order (one candidate per user; a later
+    queued upload of the same user is not looked at, whatever its task does)"""
+    first: dict = {}
+    for k, u, d, st in info['xs']:
+        if d == 'U' and st == 'QUEUED':
+            first.setdefault(u, k)
+    return first
+
+
 def _monitor(case: dict, impl: dict) -> list[Violation]:
     vs: list[Violation] = []
 
@@ -607,16 +678,20 @@ def _monitor(case: dict, impl: dict) -> list[Violation]:
             act = [j for j, s_ in state.items() if is_up.get(j) and s_ in ('INITIALIZING', 'UPLOADING')]
             others = [j for j in info_l.get('inflight', []) if j != k and state.get(j) == 'QUEUED']
             untouched = not any(x[0] == 'state' and x[1] == k for x in impl['log'][last_cycle_idx + 1:idx])
+            # (a slot the application has opened SINCE that cycle was not kept for anybody by it: raising the limit does
+            # not request a cycle by itself, see `assumptions`)
+            slots_l = min(slots, info_l['slots'])
             if (k in info_l.get('inflight', []) and k not in {j for kind, j in started_l if kind == 'T'}
+                    and _candidate_of(info_l).get(u) == k
                     and state.get(k) == 'QUEUED' and untouched and u in users_l and users_l[u][0] != 'OFFLINE'
-                    and u not in {user_of[j] for j in act} and len(act) + len(others) < slots):
+                    and u not in {user_of[j] for j in act} and len(act) + len(others) < slots_l):
                 t0 = impl['times'][idx]
                 nxt = next((j for j in range(idx + 1, len(impl['log'])) if impl['log'][j][0] == 'cycle'), None)
                 t1 = impl['times'][nxt] if nxt is not None else impl['end']
                 if t1 - t0 > OVERDUE:
                     add('C05-skipped-upload-forgotten',
                         f'a cycle passed over queued upload {k} of {u} because an earlier task of it was still running; that '
-                        f'task ended, the upload stayed QUEUED with {slots - len(act) - len(others)} free slot(s), and '
+                        f'task ended, the upload stayed QUEUED with {slots_l - len(act) - len(others)} free slot(s), and '
                         + (f'the next cycle ran {t1 - t0:.2f} s later' if nxt is not None else
                            f'no cycle ran in the remaining {t1 - t0:.2f} s'),
                         {'log_index': idx, 'passed_over_at': last_cycle_idx, 'before': info_l}, f'looked at again within {OVERDUE} s')
@@ -683,6 +758,38 @@ def _monitor(case: dict, impl: dict) -> list[Violation]:
                             f'upload {k} of {u} {users[u]} was started while eligible user {w} {users[w]} of a higher '
                             f'class was left waiting' + lost(u) + lost(w), where,
                             'privileged > friend > online/away > unknown')
+            # An upload the cycle passed over because an earlier task of it is still running (it reports a failure to the
+            # downloader, who has queued the file again) is the queued upload of an eligible user like any other: it is
+            # "being served" only as long as a slot is kept for it.  The free slots go to the users of the highest
+            # classes: an upload that is started needs a free slot for itself AND one for every eligible user of a
+            # strictly higher class (started, passed over or waiting) — otherwise the slot of a user of a higher class went
+            # to it, and that user waits behind it for a whole upload when the lingering task ends.
+            passed: dict = {}
+            first_q: dict = {}
+            for k, (u, d, st) in xs.items():             # list order: the candidate of a user is the first QUEUED upload
+                if d == 'U' and st == 'QUEUED':
+                    first_q.setdefault(u, k)
+            for k in inflight:
+                u, d, st = xs[k]
+                if (d == 'U' and st == 'QUEUED' and first_q.get(u) == k and users[u][0] != 'OFFLINE' and u not in busy
+                        and u not in sel_users and k not in locked):
+                    passed[u] = k
+            if passed:
+                cands = set(sel_users) | set(passed) | set(waiting)
+                for k in sel:
+                    if k not in xs:
+                        continue
+                    u = xs[k][0]
+                    higher = sorted(w for w in cands if _klass(users[w]) > _klass(users[u]))
+                    robbed = [w for w in higher if w in passed]
+                    if robbed and 1 + len(higher) > free:
+                        add('C05-priority-inverted',
+                            f'upload {k} of {u} {users[u]} was started with {free} free slot(s) while the queued upload(s) '
+                            f'{[passed[w] for w in robbed]} of eligible user(s) {robbed} '
+                            f'{[users[w] for w in robbed]} of a higher class — passed over in this cycle because an '
+                            f'earlier task of theirs still reports a failure — are left without a slot'
+                            + lost(u) + ''.join(lost(w) for w in robbed), where,
+                            'privileged > friend > online/away > unknown')
             if waiting and len(sel) + len(inflight) < free:
                 add('C05-slot-left-idle', f'after a cycle {free - len(sel) - len(inflight)} slot(s) stay free while '
                     f'eligible user(s) {waiting} have queued uploads' + ''.join(lost(w) for w in waiting), where,
@@ -700,15 +807,17 @@ def _monitor(case: dict, impl: dict) -> list[Violation]:
         chosen_end = [j for j, s_ in state.items() if is_up.get(j) and s_ == 'QUEUED' and j in running]
         busy_end = {user_of[j] for j in act_end + chosen_end}
         touched = {e[1] for e in impl['log'][last_cycle_idx + 1:] if e[0] == 'state'}
+        slots_l = min(slots, info_l['slots'])        # a slot opened since that cycle was not kept for anybody by it
         already = {v.observed.get('before') is info_l for v in vs if v.signature == 'C05-skipped-upload-forgotten'}
         for k in ([] if True in already else info_l.get('inflight', [])):
             u = user_of.get(k)
             if (k not in sel_l and state.get(k) == 'QUEUED' and k not in running and k not in touched
+                    and _candidate_of(info_l).get(u) == k
                     and u in users_l and users_l[u][0] != 'OFFLINE' and u not in busy_end
-                    and len(act_end) + len(chosen_end) < slots):
+                    and len(act_end) + len(chosen_end) < slots_l):
                 add('C05-skipped-upload-forgotten',
                     f'the last cycle passed over queued upload {k} of {u} because an earlier task of it was still running; '
-                    f'the task has ended, the upload is still QUEUED, {slots - len(act_end) - len(chosen_end)} slot(s) are '
+                    f'the task has ended, the upload is still QUEUED, {slots_l - len(act_end) - len(chosen_end)} slot(s) are '
                     f'free and no cycle is requested: nothing will start it',
                     {'log_index': last_cycle_idx, 'before': info_l, 'active_at_end': act_end}, 'eventually started')
     # every change is followed by a scheduling cycle (the queue request is served): the job sleeps at most
@@ -903,6 +1012,13 @@ def _gen_case(rng: random.Random, max_ops: int = 12, notice: bool = False) -> di
         weights.update({'abort': 16, 'failX': 9, 'finish': 18, 'setUser': 18, 'requeue': 7, 'apiQueue': 5, 'addUpload': 18,
                         'privList': 3})
     linger: set = set()          # uploads whose task still tries to report a failure to the peer (notice cases)
+    if notice and contended:
+        # the uploads the set-up started get through: transfers are under way (they can break) when the ops begin
+        for k, x in enumerate(m.xs):
+            if x[1] == 'U' and x[2] == 'INITIALIZING' and rng.random() < 0.85:
+                ops.append(['started', k, 0])
+                x[2] = 'UPLOADING'
+                m.pending = True
     if notice:
         # uploads break in mid-transfer, the report to the peer takes its time, the peer queues the file again meanwhile
         weights.update({'failX': weights['failX'] + 12, 'started': weights['started'] + 6, 'requeue': weights['requeue'] + 10,
@@ -1031,6 +1147,29 @@ def _gen_case(rng: random.Random, max_ops: int = 12, notice: bool = False) -> di
                         ops.append(['requeue', k, d2])
                         m.xs[k][2] = 'QUEUED'
                         m.pending = True
+                        if rng.random() < 0.7:
+                            # while the upload waits for its old task: somebody else asks for a file / a slot opens (the
+                            # cycle has to rank the passed-over upload against the others)
+                            d4 = rng.choice([0, 0.05, 0.1, 0.3])
+                            m.tick(d4)
+                            r4 = rng.random()
+                            going = [j for j in by_state('UPLOADING') if j != k]
+                            if r4 < 0.3:
+                                others = [v for v in range(nusers) if v != m.xs[k][0]] or [m.xs[k][0]]
+                                ops.append(['addUpload', rng.choice(others), d4])
+                                m.xs.append([ops[-1][1], 'U', 'QUEUED'])
+                            elif r4 < 0.65 and going:
+                                ops.append(['finish', rng.choice(going), d4])
+                                m.xs[ops[-1][1]][2] = 'COMPLETE'
+                            else:
+                                m.slots = min(4, m.slots + 1)
+                                ops.append(['setSlots', m.slots, d4])
+                                if rng.random() < 0.5:       # (a raised limit does not request a cycle by itself)
+                                    ops.append(['peerEvent', 'closed', 0] if rng.random() < 0.3 else
+                                               ['addUpload', rng.randrange(nusers), 0])
+                                    if ops[-1][0] == 'addUpload':
+                                        m.xs.append([ops[-1][1], 'U', 'QUEUED'])
+                            m.pending = True
                         if rng.random() < 0.6:
                             d3 = rng.choice([0.05, 0.1, 0.3, 0.3])
                             m.tick(d3)
@@ -1046,6 +1185,10 @@ def _gen_case(rng: random.Random, max_ops: int = 12, notice: bool = False) -> di
         case['notice'] = True
         case['kind'] += '/slow-notice'
         return case
+    if rng.random() < 0.2:
+        # the application installs new settings objects instead of assigning to the attributes of the old ones
+        case['settings'] = rng.choice(['section', 'dict', 'transfers', 'copy', 'mixed', 'mixed'])
+        case['kind'] += '/settings-replaced'
     r = rng.random()
     if r < 0.12:
         case['net'] = {'reply_delay': rng.choice([0.01, 0.03, 0.06, 0.06, 0.2, 0.2, None])}
@@ -1104,6 +1247,34 @@ DIRECTED = [
     {'kind': 'directed-requeued-while-failure-is-reported-2/slow-notice', 'slots': 1, 'notice': True, 'ops': [
         ['addUpload', 0, 0], ['addUpload', 1, 0.3], ['started', 0, 0], ['wait', 0.3], ['failX', 0, 0], ['wait', 0.1],
         ['started', 1, 0], ['finish', 1, 0.1], ['requeue', 0, 0.1], ['wait', 0.3], ['notice', 0, 'fail', 0], ['wait', 0.5]]},
+    # one slot; the upload of privileged user0 breaks, the report hangs, user0 queues the file again and is passed over;
+    # then user1 asks for a file: the free slot is user0's (kept until the old task ends), user1 waits
+    {'kind': 'directed-passed-over-keeps-its-slot/slow-notice', 'slots': 1, 'notice': True, 'ops': [
+        ['privList', [0], 0], ['setUser', 0, 'ONLINE', False, True, 0], ['setUser', 1, 'ONLINE', False, False, 0],
+        ['addUpload', 0, 0], ['wait', 0.3], ['started', 0, 0], ['wait', 0.3], ['failX', 0, 0], ['wait', 0.3],
+        ['requeue', 0, 0], ['wait', 0.3], ['addUpload', 1, 0], ['wait', 0.3], ['notice', 0, 'ok', 0], ['wait', 0.5],
+        ['started', 0, 0], ['finish', 0, 0.1], ['wait', 0.3]]},
+    # the same with user1 queued first and everything inside one sleep of the management job: user1's request is served
+    # by a cycle (no slot), then user0's upload breaks and is queued again before the next cycle runs
+    {'kind': 'directed-passed-over-keeps-its-slot-2/slow-notice', 'slots': 1, 'notice': True, 'ops': [
+        ['privList', [0], 0], ['setUser', 0, 'ONLINE', False, True, 0], ['setUser', 1, 'ONLINE', True, False, 0],
+        ['addUpload', 0, 0], ['wait', 0.3], ['started', 0, 0], ['wait', 0.3], ['addUpload', 1, 0], ['failX', 0, 0],
+        ['requeue', 0, 0], ['wait', 0.3], ['notice', 0, 'fail', 0], ['wait', 0.5]]},
+    # the limit is changed by installing a new `limits` section / a dict / a new `transfers` section: lowered below the
+    # number of running uploads (nothing starts until it fits), raised again (the waiting uploads start)
+    {'kind': 'directed-limit-replaced', 'slots': 2, 'settings': 'mixed', 'ops': [
+        ['addUpload', 0, 0], ['addUpload', 1, 0], ['addUpload', 2, 0], ['addUpload', 3, 0], ['wait', 0.3],
+        ['started', 0, 0], ['started', 3, 0], ['setSlots', 1, 0.1], ['finish', 0, 0.1], ['wait', 0.3], ['finish', 3, 0],
+        ['wait', 0.3], ['setSlots', 3, 0], ['addUpload', 4, 0], ['wait', 0.3], ['setSlots', 0, 0], ['started', 2, 0],
+        ['finish', 2, 0.1], ['wait', 0.3], ['setSlots', 4, 0], ['addUpload', 0, 0], ['wait', 0.3]]},
+    {'kind': 'directed-limit-raised-from-zero/settings-replaced', 'slots': 0, 'settings': 'section', 'ops': [
+        ['addUpload', 0, 0], ['addUpload', 1, 0], ['wait', 0.3], ['setSlots', 1, 0], ['addUpload', 2, 0], ['wait', 0.3],
+        ['started', 2, 0], ['finish', 2, 0.1], ['wait', 0.3]]},
+    {'kind': 'directed-friend-list-replaced', 'slots': 0, 'settings': 'transfers', 'ops': [
+        ['setUser', 0, 'ONLINE', False, False, 0], ['setUser', 1, 'ONLINE', False, False, 0], ['addUpload', 0, 0],
+        ['addUpload', 1, 0], ['wait', 0.3], ['setUser', 1, 'ONLINE', True, False, 0], ['setSlots', 1, 0.1],
+        ['addUpload', 2, 0], ['wait', 0.3], ['started', 1, 0], ['setUser', 1, 'ONLINE', False, False, 0],
+        ['setUser', 2, 'ONLINE', True, False, 0], ['finish', 1, 0.1], ['wait', 0.3]]},
     # slow disk, the candidates are re-ordered after a decision: one slot, user0's upload is chosen; then a privileged
     # user / a later user of equal rank queues a file and further cycles run while the disk is busy
     {'kind': 'directed-reorder-after-decision/slow-disk', 'slots': 1, 'disk': {'delays': [0.3], 'lookup': [0]}, 'ops': [
@@ -1177,6 +1348,13 @@ def _features(case: dict, impl: dict) -> set:
                             feats.add('interleaved-offline-user-with-finalized-transfer')
             if info.get('inflight'):
                 feats.add('cycle-sees-upload-in-flight')
+                po = [k for k in info['inflight'] if k in xs and k not in sel and xs[k][0] in elig]
+                if po and len(elig) > free > 0:
+                    feats.add('cycle-passes-over-upload-under-contention')
+                    if any(_klass(users[xs[k][0]]) > _klass(users[u]) for k in po for u in elig):
+                        feats.add('cycle-passes-over-upload-of-higher-class-under-contention')
+            if info.get('reported_slots', info['slots']) != info['slots']:
+                feats.add('manager-reports-other-limit-than-configured')
         elif e[0] == 'state':
             states_seen.add(e[3])
         elif e[0] == 'op' and e[2] == 'refused':
@@ -1185,6 +1363,10 @@ def _features(case: dict, impl: dict) -> set:
         feats.add('two-cycles-started-uploads')
     if any(op[-1] == SAME_STEP for op in case['ops']):
         feats.add('two-events-in-one-loop-step')
+    if case.get('settings'):
+        feats.add('settings-replaced')
+        if any(a[0] == 'slots' for a in impl['log']) and n_sel:
+            feats.add('limit-replaced')
     if case.get('disk'):
         feats.add('slow-disk')
         # an upload that became active while other users' uploads were queued behind it and the disk was slow
@@ -1233,10 +1415,17 @@ class C05(Property):
             'delay from {0, 0.02, 0.05 (= the management timer), 0.1, 0.3} s; 12 % of the cases run on a slow server '
             'connection (answer to the tracking request after 0.01..0.2 s or never; monitor only), 15 % on a slow file '
             'system / busy executor (every call the library hands to the executor, and independently every shares look-up, '
-            'takes one loop iteration .. 0.5 s of virtual time, constant or alternating; monitor only), 8 % with a peer that '
+            'takes one loop iteration .. 0.5 s of virtual time, constant or alternating; monitor only), 12 % with a peer that '
             'is hard to reach (the PeerUploadFailed report of a broken upload hangs until a `notice` op ends the attempt, '
             'delivered or not; transfers break more often, the peer queues the broken file again while the report hangs; '
-            'exact correspondence: model ops breakX / noticeEnd); management cycles are run '
+            'in contended set-ups the uploads the set-up started are under way when the ops begin, and while a broken upload '
+            'waits queued behind its own lingering task another user asks for a file / another upload completes / the '
+            'limit is raised, so that a cycle has to rank the passed-over upload against the others; '
+            'exact correspondence: model ops breakX / noticeEnd); in 20 % of the cases the application changes its '
+            'configuration (slot limit, friend list) by installing NEW settings objects — a new `limits` section as '
+            'object / dict / copy, a new `transfers` section, a new friend set, a new `users` section, or a different '
+            'way per op — instead of assigning to attributes of the old ones (same model ops; every decision is judged '
+            'against the limit / friend list in the settings at that instant); management cycles are run '
             'by the real job and logged where they happen, the first step of every initialize-upload task (QUEUED -> '
             'INITIALIZING) is fed to the model as `record` where it happens; derived from VERIF_SEED. A case is non-trivial when at least one '
             'cycle had more eligible users than free slots with a free slot to give (a ranking decision) and at least two '
@@ -1261,6 +1450,14 @@ class C05(Property):
         'attributes; in the full client the user manager\'s 1 s job announces friend-list changes); the reading only '
         'demands work conservation after a cycle',
         'TransferManager.queue is only called from the states its docstring lists',
+        'the configured slot limit / friend list is what the Settings object the client was built with holds at the '
+        'instant of a decision (settings.transfers.limits.upload_slots, settings.users.friends, read through the '
+        'settings object every time), however the application put it there: attribute assignment or a replaced section',
+        'a passed-over upload (see below) uses up the slot it would have got: a cycle that starts an upload needs a free '
+        'slot for it and one for every eligible user of a strictly higher class, started or passed over (monitor: '
+        'C05-priority-inverted; model: C05_passed_over_uses_its_slot, C05_higher_class_keeps_its_slot); the obligation '
+        'to look at a passed-over upload again concerns the candidate of its user (first queued upload) and the slots '
+        'that were free under the limit of the cycle that passed it over',
         'an upload a cycle passes over because an earlier task of it is still running (it reports a failure to the '
         'downloader) counts as being served until that task ends; then a cycle has to follow within 0.3 s (monitor: '
         'C05-skipped-upload-forgotten; model: watched / C05_passed_over_is_looked_at_again); an upload in the middle of '
@@ -1290,7 +1487,7 @@ class C05(Property):
         rng = random.Random(f'C05-{seed}')
         n = (1800 if tier == 'quick' else 40000) * widen
         mx = 12 if tier == 'quick' else 24
-        return list(DIRECTED) + [_gen_case(rng, rng.choice([12, mx]), notice=rng.random() < 0.08) for _ in range(n)]
+        return list(DIRECTED) + [_gen_case(rng, rng.choice([12, mx]), notice=rng.random() < 0.12) for _ in range(n)]
 
     def correspondence(self, seed, tier, model_ok, widen=1):
         res = KResult()
@@ -1331,7 +1528,7 @@ class C05(Property):
             for f in feats:
                 res.count('feature:' + f)
             if 'ranking-decided' in feats and 'two-cycles-started-uploads' in feats:
-                res.nontrivial_keys.add(common.sha([c['slots'], c['ops'], c.get('net'), c.get('disk'), c.get('notice')]))
+                res.nontrivial_keys.add(common.sha([c['slots'], c['ops'], c.get('net'), c.get('disk'), c.get('notice'), c.get('settings')]))
             for g in _untimely(io):
                 res.disagreements.append(Disagreement(c, g, None, 'Timely broken: ' + g[0]))
             if not c.get('notice'):              # (the rig's own check does not tell a chosen upload from a lingering task)
